@@ -21,6 +21,9 @@ const verifsymImport = "github.com/cockroachdb/pebble/internal/verifsym"
 type Group struct {
 	Pkg   string   `json:"pkg"`   // e.g. "./batchrepr"
 	Files []string `json:"files"` // relative to /verif/harness
+	// Extra: helper files overlaid into other packages (path relative to the repo -> file relative to
+	// /verif/harness), e.g. an exported constructor a harness in another package needs
+	Extra map[string]string `json:"extra,omitempty"`
 }
 
 type Spec struct {
@@ -187,6 +190,9 @@ func cmdCheck(args []string) int {
 		pkgDir := filepath.Join(*repo, strings.TrimPrefix(g.Pkg, "./"))
 		for _, f := range g.Files {
 			overlay[filepath.Join(pkgDir, "zz_verif_"+filepath.Base(f))] = filepath.Join(*verif, "harness", f)
+		}
+		for virt, f := range g.Extra {
+			overlay[filepath.Join(*repo, virt)] = filepath.Join(*verif, "harness", f)
 		}
 		prog, err := LoadProgram(*repo, g.Pkg, overlay)
 		if err != nil {
@@ -497,6 +503,9 @@ func runReplay(verif, repo, dir string, g Group, pkgName string, fns []*ssa.Func
 		// keep a copy of the harness with the replay so it stays self-contained
 		src := filepath.Join(verif, "harness", f)
 		repl[filepath.Join(pkgDir, "zz_verif_"+filepath.Base(f))] = src
+	}
+	for virt, f := range g.Extra {
+		repl[filepath.Join(repo, virt)] = filepath.Join(verif, "harness", f)
 	}
 	ov, _ := json.MarshalIndent(map[string]any{"Replace": repl}, "", " ")
 	ovPath := filepath.Join(dir, "overlay.json")
